@@ -343,3 +343,20 @@ Proof. vm_compute. reflexivity. Qed.
 
 Lemma placement_sweep_size : List.length sweep_cases = 440.
 Proof. vm_compute. reflexivity. Qed.
+
+(** F-C18d: options Program acts upon between the two passes are placement
+    dependent.  "--version" before the task: version printed, nothing runs;
+    after the task name: both passes succeed, version=True is merely recorded,
+    the task would run. *)
+Lemma refuted_early_options :
+  program_outline core_ctx [task_a] ["--version"; "a"] = Ok OVersionExit /\
+  (exists r, program_outline core_ctx [task_a] ["a"; "--version"] = Ok (ORunTasks r) /\
+             core_value (pg_core r) "version" = ABool true /\
+             List.length (pg_tasks r) = 1) /\
+  program_outline core_ctx [task_a] ["--print-completion-script=zsh"; "a"] = Ok OCompletionExit /\
+  (exists r, program_outline core_ctx [task_a] ["a"; "--print-completion-script=zsh"] = Ok (ORunTasks r)).
+Proof.
+  split; [vm_compute; reflexivity|]. split.
+  - eexists. split; [vm_compute; reflexivity|]. split; vm_compute; reflexivity.
+  - split; [vm_compute; reflexivity|]. eexists. vm_compute. reflexivity.
+Qed.
